@@ -451,6 +451,8 @@ def receiver_oracle(line, impl, clauses):
                 run = 0
             if kind == "error" and (len(groups) != i + 1 or st != "failed"):
                 return ("receiver goes on after the peer's ERROR", "after-error")
+            if kind == "error" and groups[i]:
+                return ("receiver answers the peer's ERROR with %s instead of ending at once" % " ".join(groups[i]), "reply-to-error")
     return None
 
 
